@@ -91,7 +91,7 @@ class Run:
 
     # ------------------------------------------------------------------ TLC
     def tlc(self, module, cfg, env=None, workers="auto", timeout=900, simulate=None, depth=None,
-            cont=False, extra=None, deadlock=False, dfs=False, heap=None, coverage=False):
+            cont=False, extra=None, deadlock=False, dfs=False, heap=None, coverage=False, cdot=False):
         """Run TLC on spec/<module>.tla with config text cfg. Returns TLCResult."""
         self.nmeta += 1
         cfgname = "%s_%d.cfg" % (module, self.nmeta)
@@ -118,6 +118,9 @@ class Run:
             jopts.append("-Dtlc2.tool.queue.IStateQueue=StateDeque")
         if heap:
             jopts.append("-Xmx%s" % heap)
+        if cdot:
+            jopts.append("-Dtlc2.tool.impl.Tool.cdot=true")   # action composition (GldapRefine.tla)
+            jopts.append("-Xss512m")
         if jopts:
             e["JAVA_TOOL_OPTIONS"] = " ".join(jopts)
         if env:
